@@ -145,6 +145,9 @@ func (d *DFA) Witness() (classes []int, ok bool) {
 
 var niceCache = map[*Alphabet][]int{}
 
+// NiceOrder lists the classes with printable representatives first.
+func (a *Alphabet) NiceOrder() []int { return a.niceOrder() }
+
 func (a *Alphabet) niceOrder() []int {
 	if o, ok := niceCache[a]; ok {
 		return o
@@ -512,4 +515,60 @@ func CaptureOK(src string, g int) error {
 		return fmt.Errorf("capture group %d occurs %d times after simplification", g, count)
 	}
 	return nil
+}
+
+// LiftErase returns { w : some decomposition w = v0 s1 v1 … sn vn with every
+// s_i ∈ L(seg) (non-empty) has v0 v1 … vn ∈ L(r) }: the strings that, after
+// erasing some segments belonging to seg, are in r. The real "remove every
+// leftmost non-overlapping match" operation uses one particular such
+// decomposition, so for any r the result contains every string whose stripped
+// form is in r (over-approximation).
+func LiftErase(r, seg *DFA) *DFA {
+	a := r.A
+	nr, ns := r.N(), seg.N()
+	n := &cnfa{a: a}
+	// states: [0,nr) outside; nr + q*ns + s inside a segment
+	total := nr + nr*ns
+	for i := 0; i < total; i++ {
+		n.tr = append(n.tr, map[int][]int{})
+		n.eps = append(n.eps, nil)
+		n.acc = append(n.acc, i < nr && r.Acc[i])
+	}
+	nc := a.N()
+	for q := 0; q < nr; q++ {
+		for c := 0; c < nc; c++ {
+			// consume as kept symbol
+			n.tr[q][c] = append(n.tr[q][c], int(r.Trans[q][c]))
+			// start a segment
+			s1 := int(seg.Trans[seg.Start][c])
+			n.tr[q][c] = append(n.tr[q][c], nr+q*ns+s1)
+		}
+		for s := 0; s < ns; s++ {
+			id := nr + q*ns + s
+			for c := 0; c < nc; c++ {
+				n.tr[id][c] = append(n.tr[id][c], nr+q*ns+int(seg.Trans[s][c]))
+			}
+			if seg.Acc[s] {
+				n.eps[id] = append(n.eps[id], q)
+			}
+		}
+	}
+	n.start = []int{r.Start}
+	return n.determinize()
+}
+
+// FromFunc builds a DFA from an explicit transition function over symbols. The
+// alphabet must separate every symbol the function distinguishes (checked on
+// class representatives only; callers add the relevant sets to the builder).
+func FromFunc(a *Alphabet, nStates, start int, acc func(q int) bool, step func(q int, sym int32) int) *DFA {
+	d := &DFA{A: a, Start: start}
+	for q := 0; q < nStates; q++ {
+		row := make([]int32, a.N())
+		for c := 0; c < a.N(); c++ {
+			row[c] = int32(step(q, a.Reps[c]))
+		}
+		d.Trans = append(d.Trans, row)
+		d.Acc = append(d.Acc, acc(q))
+	}
+	return d
 }
